@@ -64,6 +64,8 @@ def gen_index(rng, n, allow_neg=True):
         i = rng.randrange(n); return (i, n + 2), None, 'mixed_out_of_range'
     k = rng.randint(1, n)
     idx = sorted(rng.sample(range(n), k))
+    if allow_neg and rng.random() < 0.3:      # the same positions written with mixed signs
+        return tuple((i - n) if rng.random() < 0.5 else i for i in idx), set(idx), 'tuple_mixed_sign'
     return tuple(idx), set(idx), 'tuple'
 
 
@@ -260,7 +262,8 @@ def run_order(rng, obs):
     else:
         k = rng.randint(1, n)
         sel = rng.sample(range(n), k)                     # order of the index tuple must not matter
-        index = tuple(sel); sel = sorted(sel)
+        # negative indices address positions from the end; mixed signs must select the same positions
+        index = tuple((i - n) if rng.random() < 0.3 else i for i in sel); sel = sorted(sel)
     f = getattr(mc, which)(ascending=asc, outer=outer, index=index)(ident)
     xc, kind = as_container(rng, x)
     y = f(xc.copy() if kind == 'array' else list(xc))
